@@ -123,7 +123,8 @@ def gen_world(rng, stacks=("client", "pooled", "hash"), max_nodes=3, tls_ok=Fals
     stack = rng.choice(stacks)
     nn = 1 if stack != "hash" else rng.randint(1, max_nodes)
     item_max = rng.choice([None, None, 64, 300])
-    nodes, servers = gen.node_specs(nn, unix=(rng.random() < 0.15), item_max=item_max)
+    tls = rng.random() < 0.12
+    nodes, servers = gen.node_specs(nn, unix=(not tls and rng.random() < 0.15), item_max=item_max)
     ck = {"default_noreply": rng.random() < 0.4, "timeout": rng.choice([None, 0.5, 3]),
           "connect_timeout": rng.choice([None, 0.5, 3])}
     if rng.random() < 0.3:
@@ -146,6 +147,10 @@ def gen_world(rng, stacks=("client", "pooled", "hash"), max_nodes=3, tls_ok=Fals
          "knobs": {"recv_size": rng.choice(gen.RECV_SIZES)}}
     if item_max:
         w["knobs"]["item_max"] = item_max
+    if tls:
+        w["tls"] = True
+    if rng.random() < 0.12:
+        ck["serde"] = {"$serde": {"kind": "pickle", "proto": rng.randint(0, 5)}}
     return w
 
 
